@@ -143,19 +143,23 @@ def sweep_cases(tier, rnd):
 def check_history(c):
     obj = guard(MD6, c["d"], c["key"], c["L"]) if c["key"] else guard(MD6, c["d"], L=c["L"])
     obj.rounds = c["rounds"]
-    for i, (M, bl) in enumerate(c["msgs"]):
+    rounds = c["rounds"]
+    for i, entry in enumerate(c["msgs"]):
+        M, bl = entry[0], entry[1]
+        if len(entry) > 2:
+            rounds = obj.rounds = entry[2]      # the round count is the object's public knob (the repository's tests set it too)
         if bl is not None and bl > 8 * len(M):
             attempt(obj, M, bitlen=bl)    # over-long bit length: refused or not, only the calls after it are judged
             continue
         got = guard(obj, M) if bl is None else guard(obj, M, bitlen=bl)
-        exp = R.md6(M, bl, d=c["d"], key=c["key"], L=c["L"], r=c["rounds"])
+        exp = R.md6(M, bl, d=c["d"], key=c["key"], L=c["L"], r=rounds)
         if got != exp:
             raise Violation("md6:reused-object!=spec", {"call": i, "out": exp}, {"call": i, "out": got})
 
 
 def history_strategy(tier):
-    msg = st.tuples(gen.blob_of(gen.pick((2, gen.uint(0, 600)), (1, gen.uint(601, 2600)))), gen.uint(0, 9)).map(
-        lambda t: (t[0], 8 * len(t[0]) + 3 if t[1] == 9 else None if t[1] > 6 or not t[0] else 8 * len(t[0]) - t[1]))
+    msg = st.tuples(gen.blob_of(gen.pick((2, gen.uint(0, 600)), (1, gen.uint(601, 2600)))), gen.uint(0, 9), gen.pick((2, st.just(0)), (1, gen.uint(1, 6)))).map(
+        lambda t: (t[0], 8 * len(t[0]) + 3 if t[1] == 9 else None if t[1] > 6 or not t[0] else 8 * len(t[0]) - t[1]) + ((t[2],) if t[2] else ()))
     return st.builds(lambda d, L, key, r, msgs: {"d": d, "L": L, "key": key, "rounds": r,
                                                  "msgs": tuple(msgs) + ((b"after", None),) * (msgs[-1][1] is not None and msgs[-1][1] > 8 * len(msgs[-1][0]))},
                      st.sampled_from([8, 160, 256, 300, 512]), st.sampled_from([0, 1, 64]), keys(), gen.uint(1, 4), st.lists(msg, min_size=2, max_size=4))
@@ -173,7 +177,10 @@ FACETS = [
           nontrivial=nontriv, classify=classify, suppress_too_slow=True,
           rule="default round count (40+d/4, >= 80 keyed), messages up to 1300 bytes"),
     Facet("reused-object", check_history, strategy=history_strategy, budget={"quick": 800, "thorough": 8000}, shards={"quick": 16, "thorough": 32},
-          nontrivial=lambda c: True, classify=lambda c: ("L=%d" % c["L"],), suppress_too_slow=True,
-          rule="2..4 messages (byte and bit lengths) hashed one after the other by ONE MD6 object"),
+          nontrivial=lambda c: True, suppress_too_slow=True,
+          classify=lambda c: ("L=%d" % c["L"], "rounds changed between calls" if any(len(e) > 2 for e in c["msgs"][1:]) else "rounds fixed",
+                              "has over-long bitlen call" if any(e[1] is not None and e[1] > 8 * len(e[0]) for e in c["msgs"]) else "all calls valid"),
+          rule="2..5 messages (byte and bit lengths) hashed one after the other by ONE MD6 object, the round count raised or lowered between "
+               "calls in a third of them, one call in ten with a bit length beyond the data (not judged, the calls after it are)"),
 ]
 WEIGHT = {"trees-fast-rounds": 8, "default-rounds": 8, "sizes-and-bit-lengths": 5}
